@@ -415,6 +415,36 @@ def _transform_kw(kw, t, shape):
     return out
 
 
+def _feasible_dtypes(data):
+    """Narrow / unsigned dtypes that hold the (integer-valued) finite values of the image exactly."""
+    a = np.asarray(data, float)
+    fin = a[np.isfinite(a)]
+    if fin.size == 0 or not np.all(fin == np.round(fin)):
+        return []
+    lo, hi = float(fin.min()), float(fin.max())
+    out = []
+    if fin.size == a.size:
+        for name in ('uint8', 'uint16', 'uint32', 'uint64', 'int8', 'int16', 'int32', 'int64'):
+            info = np.iinfo(name)
+            if lo >= info.min and hi <= info.max:
+                out.append(name)
+    if max(abs(lo), abs(hi)) < 2 ** 24:
+        out.append('float32')
+    if max(abs(lo), abs(hi)) <= 2048 and np.all(np.isfinite(a)):
+        out.append('float16')
+    return out
+
+
+def _maybe_counts(case, data, mag, p=0.25):
+    """With probability p (plain magnitude only) turn the image into non-negative integer counts so that it can also
+    be handed over in narrow / unsigned dtypes."""
+    if mag == 1.0 and case.rng.random() < p:
+        case.note('axis2_dtype_integer_valued_image')
+        with np.errstate(invalid='ignore'):
+            return np.where(np.isfinite(data), np.clip(np.rint(data), 0, None), data)
+    return data
+
+
 def _classify_1dg_flip(data, kw, t, base, obs, exp):
     """Classification only (never a verdict) of a failed flip relation of centroid_1dg.
 
@@ -499,6 +529,35 @@ def _relations(case, func, fname, data, kw, tol, mech, scale_error=True, scale_t
             m['explained_by_degenerate_initial_width'] = _classify_1dg_flip(data, kw, t, base, obs, exp)
         case.close(obs, exp, f'{fname}_commutes_with_flip_transpose', atol=tol, mech=m, base=base)
         n += 1
+    # (xi) a caller-owned all-False mask is the same as no mask
+    if kw.get('mask') is None and rng.random() < 0.3:
+        obs = _call(func, data, _log=log, **dict(kw, mask=np.zeros(data.shape, bool)))
+        case.close(obs, base, f'{fname}_all_false_mask_equals_no_mask', mech=mech)
+        case.note('axis2_setlike_mask_all_false')
+        n += 1
+    # (vii) the same numbers in a narrow / unsigned dtype
+    feas = _feasible_dtypes(data)
+    if feas and not log[0]:
+        dt = str(rng.choice(feas))
+        case.note('axis2_dtype_image_' + dt)
+        obs = _call(func, np.asarray(data).astype(dt), _log=log, **kw)
+        if not log[-1]:
+            md = dict(mech, dtype=dt)
+            if fname.startswith('gauss'):
+                md['far_scale'] = _far(_mag_of(data), kw.get('error'))
+            tol_d = tol
+            if dt in ('float16', 'float32'):
+                # the library may compute in the input's precision: the documentation promises no more
+                tol_d = max(tol, 64 * float(np.finfo(dt).eps))
+                _absdev(case, f'{fname}_same_result_for_{dt}', obs, base)
+            else:
+                _absdev(case, f'{fname}_same_result_for_integer_dtype', obs, base)
+                if dt in ('int64', 'uint64', 'int32', 'uint32'):
+                    # classification only: would first moments accumulated in a 64-bit integer overflow?
+                    a_ = np.abs(np.asarray(data, float))
+                    md['int64_moment_sum_overflows'] = bool(np.nansum(a_) * max(data.shape) >= 2.0 ** 63)
+            case.close(obs, base, f'{fname}_same_result_for_narrow_dtype', atol=tol_d, mech=md)
+            n += 1
     if rng.random() < 0.35:
         k, dyadic = float(rng.choice([2.0, 0.5, 10.0, 1e3, 3.7, 1e-3, 1.0 / 3.0])), False
         dyadic = k in (2.0, 0.5)
@@ -574,7 +633,8 @@ def _run_com_rel(case):
         data = rng.normal(3.0, 2.0, size=shape)
     else:
         data, _ = _peaked(rng, shape, rng.uniform(0, shape[1] - 1), rng.uniform(0, shape[0] - 1))
-    data = data * _magnitude(case)
+    mag_ = _magnitude(case)
+    data = _maybe_counts(case, data * mag_, mag_)
     case.note('data_magnitude_' + _bucket(_mag_of(data)))
     mask = _rand_mask(rng, shape, float(rng.choice([0.05, 0.3]))) if rng.random() < 0.7 else None
     if rng.random() < 0.3:
@@ -776,7 +836,8 @@ def _run_quad_rel(case):
         if rng.random() < 0.5:
             y0 = float(rng.choice([1.0, ny - 2.0]) + rng.uniform(-0.3, 0.3))
     data, amp = _peaked(rng, shape, x0, y0, noise=float(rng.choice([0.0, 0.01, 0.05])))
-    data = data * _magnitude(case)
+    mag_ = _magnitude(case)
+    data = _maybe_counts(case, data * mag_, mag_)
     case.note('data_magnitude_' + _bucket(_mag_of(data)))
     mask = None
     if rng.random() < 0.6:
@@ -939,7 +1000,7 @@ def _run_gauss_rel(case):
     noise = float(rng.choice([0.0, 0.0, 0.01, 0.03]))
     data, amp = _peaked(rng, shape, x0, y0, noise=noise)
     mag = _magnitude(case, p_unit=0.6)
-    data = data * mag
+    data = _maybe_counts(case, data * mag, mag)
     case.note('data_magnitude_' + _bucket(_mag_of(data)))
     which = int(rng.integers(0, 3)) if case.tier == 'quick' else 3
     mask = _rand_mask(rng, shape, float(rng.choice([0.03, 0.1]))) if (rng.random() < 0.6 or which in (1, 2)) else None
@@ -969,8 +1030,15 @@ def _run_gauss_rel(case):
             with warnings.catch_warnings():
                 warnings.simplefilter('ignore')
                 kw2 = {k: _layout(v) for k, v in kw.items()}
-                obs = np.asarray(func(np.ma.MaskedArray(_layout(data), _layout(mask)), **kw2))
+                marr = np.ma.MaskedArray(_layout(data), _layout(mask))
+                m_before = np.ma.getmaskarray(marr).copy()
+                obs = np.asarray(func(marr, **kw2))
+                obs2 = np.asarray(func(marr, **kw2))          # (x) the same object asked a second time
             case.close(obs, b, f'gauss{fname}_maskedarray_equals_mask_kw', mech=mech)
+            case.close(obs2, obs, f'gauss{fname}_same_maskedarray_second_call_identical', mech=mech)
+            case.check(bool(np.array_equal(np.ma.getmaskarray(marr), m_before)),
+                       f'gauss{fname}_maskedarray_mask_unmodified', mech)
+            case.note('axis2_provenance_maskedarray_reused')
             n += 1
     case.nontrivial = n > 0
     if n == 0:
@@ -1018,7 +1086,7 @@ def _positions(rng, xs, ys, shape):
     elif form == 'half':
         xp, yp = np.floor(xp) + 0.5, np.floor(yp) + 0.5
     elif form == 'edge' and xp.size:
-        k = int(rng.integers(0, xp.size))
+        k = int(rng.integers(0, min(xp.size, xs.size)))
         xp[k] = float(rng.choice([0.0, nx - 1.0]))
         if rng.random() < 0.5:
             yp[k] = float(rng.choice([0.0, ny - 1.0]))
@@ -1079,12 +1147,22 @@ def _run_sources(case):
     ny, nx = data.shape
     yy, xx = np.mgrid[0:ny, 0:nx].astype(float)
     xp, yp, pform = _positions(rng, xs, ys, data.shape)
+    if xp.size >= 1 and rng.random() < 0.2:
+        # (xi) set-like argument: a position listed twice is a position like any other
+        k_ = int(rng.integers(0, xp.size))
+        xp, yp = np.append(xp, xp[k_]), np.append(yp, yp[k_])
+        case.note('axis2_setlike_positions_duplicate')
+    for nm, sel in (('left', xp <= 3), ('right', xp >= nx - 4), ('bottom', yp <= 3), ('top', yp >= ny - 4)):
+        if np.any(sel):
+            case.note('axis2_edge_position_near_' + nm)
+    if np.any(np.mod(xp, 1) == 0.5) or np.any(np.mod(yp, 1) == 0.5):
+        case.note('axis2_parity_half_integer_positions')
     fkw, fp, fpname = _footprint(rng)
     mask = None
     if rng.random() < 0.6:
         mask = _rand_mask(rng, data.shape, float(rng.choice([0.02, 0.1, 0.3])))
     mag = _magnitude(case)
-    data = data * mag
+    data = _maybe_counts(case, data * mag, mag)
     case.note('data_magnitude_' + _bucket(_mag_of(data)))
     if rng.random() < 0.2:
         data[rng.random(data.shape) < 0.01] = np.nan
@@ -1103,7 +1181,7 @@ def _run_sources(case):
         if rng.random() < 0.7:
             extra['fit_boxsize'] = int(rng.choice([3, 5]))
         if rng.random() < 0.5:
-            k = int(rng.integers(0, xp.size))
+            k = int(rng.integers(0, xs.size))
             extra['xpeak'] = float(np.round(xs[k]) + rng.choice([0.0, 0.0, 1.0, -1.0, 0.3]))
             extra['ypeak'] = float(np.round(ys[k]) + rng.choice([0.0, 0.0, 1.0, -1.0, 0.3]))
             if rng.random() < 0.1:
@@ -1131,7 +1209,7 @@ def _run_sources(case):
         elif which == 'peakshift':
             func, fname = peakshift, 'user_peakshift'
             if rng.random() < 0.85:
-                k = int(rng.integers(0, xp.size))
+                k = int(rng.integers(0, min(xp.size, xs.size)))
                 extra['xpeak'] = float(np.round(xs[k]))
                 extra['ypeak'] = float(np.round(ys[k]))
         else:
@@ -1270,6 +1348,27 @@ def _run_sources(case):
         x1, y1 = run(float(xp[k]), float(yp[k]))
         judged(np.array([x1[0], y1[0]]), np.array([xo[k], yo[k]]), 'sources_single_equals_batched', mech,
                [run0, (xp[k:k + 1], yp[k:k + 1], (x1, y1))], index=k)
+    # (6) (vii) the same numbers in a narrow / unsigned image dtype
+    feas = _feasible_dtypes(data)
+    if feas and fname not in ('centroid_1dg', 'centroid_2dg'):     # Gaussian fits: judged in gauss_rel (convergence guard)
+        dt = str(rng.choice(feas))
+        case.note('axis2_dtype_image_' + dt)
+        data_f = data
+        data = np.asarray(data_f).astype(dt)
+        try:
+            xd, yd = run(xp.copy(), yp.copy())
+        finally:
+            data = data_f
+        tol_d = {'centroid_com': 1e-9, 'centroid_quadratic': TOL_QUAD_REL, 'centroid_1dg': TOL_REL_GAUSS,
+                 'centroid_2dg': TOL_REL_GAUSS}.get(fname, 1e-9)
+        if dt in ('float16', 'float32'):
+            tol_d = max(tol_d, 64 * float(np.finfo(dt).eps))
+        unconv = fname in ('centroid_1dg', 'centroid_2dg') and not np.array_equal(np.isfinite(xd), np.isfinite(xo))
+        if unconv:
+            case.note('narrow_dtype_gauss_fit_failure_pattern_differs_not_judged')
+        else:
+            case.close(np.array([xd, yd]), np.array([xo, yo]), 'sources_same_result_for_narrow_dtype', atol=tol_d,
+                       mech=dict(base_mech, dtype=dt))
     # (5) positive rescaling of the image by a power of two (the rescaling is exact, so are centre-of-mass and
     # least-squares results; the error map, where given, keeps its scale: weights only change by a common factor
     # for 1/error-weighted functions - judged for the functions that do not use `error`)
